@@ -190,6 +190,9 @@ def width_source(ctx, cfg, fs):
     ok = len(rc) == 2 and all(all(r.kind == 'param' and r.what == 'max_width' for r in provenance(p, c.args[3], c.bb, 'term')) for c in rc)
     ctx.ob('P.width-source', 'print_message:parameter', ok, 'print_message renders with its max_width parameter (%d render calls): %s' % (len(rc), ok), where=p.where(), cfg=cfg)
 
+# str methods whose results are sub-slices of the receiver (never new text)
+STR_SUBSLICE = r'str::<impl str>::(strip_prefix|strip_suffix|split_once|rsplit_once|split_at|split_at_checked|get|get_unchecked|trim\w*|split_first\w*)$'
+
 def splitter(ctx, cfg, fs):
     b = ctx.look(fs.one(r"^<buffer::splitter::Splitter<'a> as std::iter::Iterator>::next$"))
     raws = []
@@ -198,7 +201,7 @@ def splitter(ctx, cfg, fs):
             raws.append((i, k, st))
     good = bool(raws); kinds = set()
     for (i, k, st) in raws:
-        rs = provenance(b, st['rv']['fields'][0], i, k, through=DEFAULT_THROUGH + [r'core::str::traits::<impl .* for str>::index$', r'str::<impl str>::(strip_prefix|split_once)'])
+        rs = provenance(b, st['rv']['fields'][0], i, k, through=DEFAULT_THROUGH + [r'core::str::traits::<impl .* for str>::index$', STR_SUBSLICE])
         for r in rs:
             if r.kind == 'const' and r.what == ' ':
                 kinds.add('single space')
@@ -212,7 +215,7 @@ def splitter(ctx, cfg, fs):
     for i, k, st in b.stmts():
         if st['k'] == 'assign' and place_fields(st['lhs']) == ['input']:
             n += 1
-            rs = provenance(b, st['rv']['op'], i, k, through=DEFAULT_THROUGH + [r'core::str::traits::<impl .* for str>::index$', r'str::<impl str>::(strip_prefix|split_once)']) if st['rv']['k'] == 'use' else []
+            rs = provenance(b, st['rv']['op'], i, k, through=DEFAULT_THROUGH + [r'core::str::traits::<impl .* for str>::index$', STR_SUBSLICE]) if st['rv']['k'] == 'use' else []
             good &= bool(rs) and all((r.kind == 'param' and r.what == 'self' and r.path[:1] == ['input']) or (r.kind == 'const' and r.what == '') for r in rs)
     ctx.ob('S.splitter', 'Splitter::next:input-is-suffix', good and n >= 5, 'the remaining input is always re-assigned from a sub-slice of itself or "" (%d assignments): %s' % (n, good), where=b.where(), cfg=cfg)
     ch = fs.adt('buffer::splitter::Chunk')
